@@ -183,4 +183,141 @@ example : evalTree none (.mk "1" "dataset" none none none [] [] []
      ("ORCID_ID_MISSING", [1]), ("USER_ID_MISSING", [1]), ("EMAIL_MISSING", [1]), ("INDIVIDUAL_NAME_INCOMPLETE", [1, 0])] := by
   decide
 
+/-! ### dataset-level recommendations -/
+
+theorem lastNamed_none_iff (x : String) (cs : List Tree) : lastNamed x cs = none ↔ ¬ ∃ c ∈ cs, c.name = x := by
+  unfold lastNamed
+  rw [List.getLast?_eq_none_iff, List.filter_eq_nil_iff]
+  constructor
+  · rintro h ⟨c, hc, hn⟩; exact h c hc (by simp [hn])
+  · intro h c hc hb; exact h ⟨c, hc, by simpa using hb⟩
+
+theorem lastNamed_some_mem (x : String) (cs : List Tree) (a : Tree) (h : lastNamed x cs = some a) : a ∈ cs ∧ a.name = x := by
+  unfold lastNamed at h
+  have := List.mem_of_getLast? h
+  rw [List.mem_filter] at this
+  exact ⟨this.1, by simpa using this.2⟩
+
+theorem mem_dsAbstractW (cs : List Tree) (w : String) : w ∈ dsAbstractW cs ↔
+    (w = "DATASET_ABSTRACT_MISSING" ∧ ∀ a, lastNamed "abstract" cs = some a → getTextContent a = "") ∨
+    (w = "DATASET_ABSTRACT_TOO_SHORT" ∧ ∃ a, lastNamed "abstract" cs = some a ∧ getTextContent a ≠ "" ∧
+      pyWordCount (getTextContent a).toList < 20) := by
+  unfold dsAbstractW
+  cases h : lastNamed "abstract" cs with
+  | none => simp
+  | some a =>
+    simp only [Option.some.injEq, forall_eq', exists_eq_left']
+    by_cases he : getTextContent a = ""
+    · simp [he]
+    · by_cases hw : pyWordCount (getTextContent a).toList < 20
+      · simp [he, hw]
+      · simp [he, hw]
+
+theorem mem_dsCoverageW (cs : List Tree) (w : String) : w ∈ dsCoverageW cs ↔
+    w = "DATASET_COVERAGE_MISSING" ∧ ∀ c, lastNamed "coverage" cs = some c → c.children = [] := by
+  unfold dsCoverageW
+  cases h : lastNamed "coverage" cs with
+  | none => simp
+  | some c =>
+    simp only [Option.some.injEq, forall_eq']
+    by_cases he : c.children = []
+    · simp [he]
+    · have : c.children.isEmpty = false := by simpa using he
+      simp [he, this]
+
+theorem mem_dsRightsW (cs : List Tree) (w : String) : w ∈ dsRightsW cs ↔
+    w = "INTELLECTUAL_RIGHTS_MISSING" ∧ ∀ r, lastNamed "intellectualRights" cs = some r → truthy r.content = false := by
+  unfold dsRightsW
+  cases h : lastNamed "intellectualRights" cs with
+  | none => simp
+  | some r =>
+    simp only [Option.some.injEq, forall_eq']
+    cases ht : truthy r.content <;> simp
+
+theorem mem_missing (x code : String) (cs : List Tree) (w : String) :
+    w ∈ (if (lastNamed x cs).isNone then [code] else []) ↔ w = code ∧ ¬ ∃ c ∈ cs, c.name = x := by
+  rw [← lastNamed_none_iff]
+  cases h : lastNamed x cs <;> simp
+
+theorem mem_dsKeywordsW (cs : List Tree) (w : String) : w ∈ dsKeywordsW cs ↔
+    (w = "KEYWORDS_MISSING" ∧ ¬ ∃ c ∈ cs, c.name = "keywordSet") ∨
+    (w = "KEYWORDS_INSUFFICIENT" ∧ (∃ c ∈ cs, c.name = "keywordSet") ∧ keywordTotal cs < 5) := by
+  unfold dsKeywordsW
+  have hk : (cs.filter (fun c => c.name == "keywordSet")).isEmpty = true ↔ ¬ ∃ c ∈ cs, c.name = "keywordSet" := by
+    rw [List.isEmpty_iff, List.filter_eq_nil_iff]
+    constructor
+    · rintro h ⟨c, hc, hn⟩; exact h c hc (by simp [hn])
+    · intro h c hc hb; exact h ⟨c, hc, by simpa using hb⟩
+  by_cases h1 : (cs.filter (fun c => c.name == "keywordSet")).isEmpty = true
+  · have := hk.mp h1
+    simp [h1, this]
+  · have hex : ∃ c ∈ cs, c.name = "keywordSet" := Classical.not_not.mp (fun hn => h1 (hk.mpr hn))
+    by_cases h2 : keywordTotal cs < 5
+    · simp [h1, h2, hex]
+    · simp [h1, h2, hex]
+
+/-- the dataset-level recommendations, each exactly when its documented condition holds.  Among several children of one name
+    the LAST abstract / coverage / intellectualRights is the one looked at (stated explicitly through `lastNamed`);
+    keywords are counted over all keyword sets. -/
+theorem C19_dataset (t : Tree) :
+    ("DATASET_ABSTRACT_MISSING" ∈ datasetRule t ↔ ∀ a, lastNamed "abstract" t.children = some a → getTextContent a = "") ∧
+    ("DATASET_ABSTRACT_TOO_SHORT" ∈ datasetRule t ↔ ∃ a, lastNamed "abstract" t.children = some a ∧ getTextContent a ≠ "" ∧
+        pyWordCount (getTextContent a).toList < 20) ∧
+    ("DATASET_COVERAGE_MISSING" ∈ datasetRule t ↔ ∀ c, lastNamed "coverage" t.children = some c → c.children = []) ∧
+    ("DATATABLE_MISSING" ∈ datasetRule t ↔ ¬ ∃ c ∈ t.children, c.name = "dataTable") ∧
+    ("INTELLECTUAL_RIGHTS_MISSING" ∈ datasetRule t ↔
+        ∀ r, lastNamed "intellectualRights" t.children = some r → truthy r.content = false) ∧
+    ("KEYWORDS_MISSING" ∈ datasetRule t ↔ ¬ ∃ c ∈ t.children, c.name = "keywordSet") ∧
+    ("KEYWORDS_INSUFFICIENT" ∈ datasetRule t ↔ (∃ c ∈ t.children, c.name = "keywordSet") ∧ keywordTotal t.children < 5) ∧
+    ("DATASET_METHOD_STEPS_MISSING" ∈ datasetRule t ↔ ¬ ∃ c ∈ t.children, c.name = "methods") ∧
+    ("DATASET_PROJECT_MISSING" ∈ datasetRule t ↔ ¬ ∃ c ∈ t.children, c.name = "project") := by
+  simp only [datasetRule, List.mem_append, mem_dsAbstractW, mem_dsCoverageW, mem_dsRightsW, mem_dsKeywordsW,
+    dsDataTableW, dsMethodsW, dsProjectW, mem_missing]
+  simp
+
+/-- a missing abstract is the same as "no abstract child, or the last one has no text" -/
+theorem C19_abstract_missing_iff (t : Tree) :
+    "DATASET_ABSTRACT_MISSING" ∈ datasetRule t ↔
+      (¬ ∃ c ∈ t.children, c.name = "abstract") ∨ ∃ a, lastNamed "abstract" t.children = some a ∧ getTextContent a = "" := by
+  rw [(C19_dataset t).1, ← lastNamed_none_iff]
+  cases h : lastNamed "abstract" t.children with
+  | none => simp
+  | some a => simp
+
+/-! ### data tables -/
+
+theorem mem_dtDescW (cs : List Tree) (w : String) : w ∈ dtDescW cs ↔
+    w = "DATATABLE_DESCRIPTION_MISSING" ∧ ¬ ∃ c ∈ cs, c.name = "entityDescription" ∧ truthy c.content = true := by
+  unfold dtDescW
+  cases h : cs.any (fun c => c.name == "entityDescription" && truthy c.content)
+  · simp only [Bool.false_eq_true, if_false, List.mem_singleton, iff_self_and]
+    intro _
+    rintro ⟨c, hc, h1, h2⟩
+    have : cs.any (fun c => c.name == "entityDescription" && truthy c.content) = true :=
+      List.any_eq_true.mpr ⟨c, hc, by simp [h1, h2]⟩
+    rw [h] at this; cases this
+  · rw [List.any_eq_true] at h
+    obtain ⟨c, hc, hp⟩ := h
+    simp only [Bool.and_eq_true, beq_iff_eq] at hp
+    simp only [if_true, List.not_mem_nil, false_iff, not_and, Classical.not_not]
+    intro _
+    exact ⟨c, hc, hp.1, hp.2⟩
+
+theorem mem_ite_missing (o : Option Tree) (code w : String) :
+    w ∈ (if missingOrEmpty o then [code] else []) ↔ w = code ∧ ∀ n, o = some n → truthy n.content = false := by
+  cases o with
+  | none => simp [missingOrEmpty]
+  | some n => cases h : truthy n.content <;> simp [missingOrEmpty, h]
+
+/-- data tables: each recommendation exactly when the node the documentation points at (`dtParts`) is absent or empty -/
+theorem C19_datatable (t : Tree) :
+    ("DATATABLE_DESCRIPTION_MISSING" ∈ dataTableRule t ↔
+        ¬ ∃ c ∈ t.children, c.name = "entityDescription" ∧ truthy c.content = true) ∧
+    ("DATATABLE_SIZE_MISSING" ∈ dataTableRule t ↔ ∀ n, (dtParts t.children).size = some n → truthy n.content = false) ∧
+    ("DATATABLE_MD5_CHECKSUM_MISSING" ∈ dataTableRule t ↔ ∀ n, (dtParts t.children).auth = some n → truthy n.content = false) ∧
+    ("DATATABLE_NUMBER_OF_RECORDS_MISSING" ∈ dataTableRule t ↔ ∀ n, (dtParts t.children).nrec = some n → truthy n.content = false) ∧
+    ("DATATABLE_RECORD_DELIMITER_MISSING" ∈ dataTableRule t ↔ ∀ n, (dtParts t.children).rd = some n → truthy n.content = false) := by
+  simp only [dataTableRule, List.mem_append, mem_dtDescW, mem_ite_missing]
+  simp
+
 end Metapype
